@@ -24,6 +24,7 @@ RULE = (
     "tile [0,nnz) (or one chromosome's pixel range in cis mode) exactly once; split(clr, chunksize=c) piped "
     "through an identity stage returns every stored pixel exactly once; the cooler balance command line (Pool.imap_unordered for -p > 1) stores the same weights as the library call, refuses to overwrite without --force, and store=True writes exactly what is returned. Non-trivial = >=2 spans and a "
     "non-identity completion order. Distinct by sha1 of the canonical case."
+    ' Reported var/scale/converged are compared with the dense reference; two continuations derived from one stem pipeline; CLI: the first of two runs is stricter (--force must owe nothing to it), statistics stored as attributes of the weight column, --stdout output.'
 )
 ASSUMPTIONS = [
     "the harness owns the schedule through the map= parameter; timing of real worker pools is sampled only",
